@@ -7,6 +7,7 @@ import blocks_common as B
 import common as C
 import gen as G
 import verde as vd
+from props import large as L
 
 ID = "C14"
 TRANSLATED = "windows"     # Gen/Coords.lean (rolling_window prelude) and Gen/Windows.lean (expanding_window, the queries of rolling_window) are regenerated from /repo and bridged in Props/C14.lean
@@ -30,6 +31,12 @@ def mk_exp(es, ns, shape2d, center, sizes, kind):
 
 
 def corpus():
+    return _corpus() + [L.case("windows", [70001, 1, 12.0, 10.0], "corpus-large-cloud"),
+                       L.case("windows", [131075, 2, 15.0, 9.0], "corpus-large-cloud"),
+                       L.case("windows", [65537, 3, 9.0, 11.0], "corpus-large-cloud")]
+
+
+def _corpus():
     es = [0.0, 1.0, 2.0, 3.0, 7.0, 8.0, 4.0, 10.0, 5.0]
     ns = [0.0, 1.0, 2.0, 3.0, 7.0, 8.0, 6.0, 10.0, 5.0]
     cs = [mk_roll(es, ns, [9], 2.0, [0, 10, 0, 10], None, 2.0, "spacing", False, "corpus-edges"),
@@ -126,6 +133,9 @@ def _flat_indices(idx, shape2d):
 
 
 def impl(case):
+    if case["fn"] == "large":
+        r = C.call(L.run, case["args"])
+        return r if C.is_err(r) else ["large", r]
     a = case["args"]
     if case["fn"] == "expanding":
         es, ns, shape2d, center, sizes = a
@@ -235,6 +245,8 @@ def _size_on_side(case):
 
 
 def compare(case, io, mo):
+    if case["fn"] == "large":
+        return "diff:implementation failed: " + io[1] if C.is_err(io) else "ok"
     e = C.err_compare(io, mo)
     if e and _size_on_side(case):
         return "amb"
@@ -280,6 +292,8 @@ def _amb_or_diff(case, msg):
 
 
 def oracle(case, io):
+    if case["fn"] == "large":
+        return (io[1] or None) if not C.is_err(io) else "failed on a large input: " + io[1]
     a = case["args"]
     if case["fn"] == "expanding":
         es, ns, shape2d, center, sizes = a
@@ -351,6 +365,8 @@ def oracle(case, io):
 
 
 def nontrivial(case, io):
+    if case["fn"] == "large":
+        return not C.is_err(io)
     if C.is_err(io):
         return False
     wins = io if case["fn"] == "expanding" else io[1][1]
